@@ -46,6 +46,8 @@ inductive Act
   | bufOp (op : BufKind) (buf : String) (args : String)
   | assign (var : String) (value : String)               -- store to a member, or to a local that feeds a guard
   | assertion (text : String)                            -- `assert(..)` over members
+  | lockWeak (weak : String) (into : String)             -- `shared_ptr into(weak.lock())`: a trampoline pins the object
+  | invoke (fn : String) (args : String)                 -- `fn(args)`: a function object that is a parameter / member of a trampoline
   | ret
 deriving DecidableEq, Repr
 
@@ -223,6 +225,42 @@ def handleEventWithGuard : List Skel :=
     .ite "dispError" [.ite "dispErrorSub" [.act (.cb .error)] []] [],
     .ite "dispRead" [.ite "dispReadSub" [.act (.cb .read)] []] [],
     .ite "dispWrite" [.ite "dispWriteSub" [.act (.cb .write)] []] [] ]
+
+/-! ### the trampolines that run the connection's weak functors, and the default callbacks
+
+`Conn.runTask` starts with `if !c.alive && !t.strong then .. if t.hold = .weak then c else <uaf>`: a functor that
+holds a weak reference and finds the object gone does NOTHING, and one that finds it alive runs with the object
+pinned for the duration of the call.  In the source that is the trampoline the functor runs: lock the weak pointer,
+test the result, call with the locked pointer - and nothing before, after or in an `else`. -/
+
+/-- `Conn.runTask _ (.writeComplete b)`: object gone (`!c.alive`, the functor's hold is `wcHold = .weak`): `c`;
+otherwise `callback c .wc (.wc ..)`, the user's callback with the connection as its argument -/
+def notifyWriteComplete : List Skel :=
+  [ .act (.lockWeak "weak" "conn"),
+    .ite "conn" [.act (.invoke "cb" "conn")] [] ]
+
+/-- `Conn.runTask _ (.highWater b n)`: the same with `hwmHold`; the callback gets the connection and the backlog `n`
+that was bound when the notification was scheduled -/
+def notifyHighWaterMark : List Skel :=
+  [ .act (.lockWeak "weak" "conn"),
+    .ite "conn" [.act (.invoke "cb" "conn, len")] [] ]
+
+/-- `Conn.runTask` for the functors made by `makeWeakCallback` (`.sendInLoop`, `.shutdownInLoop`,
+`.drainShutdownInLoop`, `.startReadInLoop`, `.stopReadInLoop`: hold `.weak`) and `Conn.fireDelay` (`if c.alive then
+actLoop c .forceClose else if forceCloseDelayHold.. = .weak then c`): the member function runs on the locked object
+with the bound arguments, or nothing happens -/
+def weakCallbackCall : List Skel :=
+  [ .act (.lockWeak "object_" "ptr"),
+    .ite "ptr" [.act (.invoke "function_" "ptr.get(), args...")] [] ]
+
+/-- `Conn.callback c .up/.down _` with no hook: the event is recorded (`emit`) and nothing is done to the connection
+(in particular no `forceClose()`): the default connection callback only logs -/
+def defaultConnectionCallback : List Skel := []
+
+/-- `Conn.consume` with the default `retrieveMax := 1 <<< 40` (`inBuf.drop retrieveMax = []`): a message callback that
+does not look at the data drops ALL of it - what `defaultMessageCallback` does when the user installs none -/
+def defaultMessageCallback : List Skel :=
+  [ .act (.bufOp .retrieveAll "buf" "") ]
 
 end Decl
 end MuduoVerif.ConnSkel
